@@ -482,10 +482,10 @@ _HEAVY = ((0, 4), (1, 4), (4, 0), (4, 1), (4, 4))    # add-first or add-second h
 
 HARNESSES = [
     H(program, shards=lambda tier: _shards(8, 1 if tier == "quick" else 2),
-      timeout={"quick": 90, "thorough": 900}),
+      timeout={"quick": 150, "thorough": 1200}),
     H(program_cbs, shards=lambda tier: _shards(5, 2, _HEAVY) if tier == "quick" else _shards(5, 3),
-      timeout={"quick": 90, "thorough": 900}),
+      timeout={"quick": 150, "thorough": 1200}),
     H(scenario, shards=lambda tier: [("sc == %d" % k,) + ((_bucket(0, 3 * ai, 3 * ai + 3, 15),) if tier != "quick" else ())
                                      for k in range(len(SCEN)) for ai in (range(5) if tier != "quick" else (0,))],
-      timeout={"quick": 90, "thorough": 900}),
+      timeout={"quick": 150, "thorough": 1200}),
 ]
